@@ -24,6 +24,31 @@ proof fn lemma_pow256()
 
 /// length of the id at the start of `a` (the iterator's convention: a first byte 0x00 is the one-byte id 0)
 pub open spec fn sp_id_len(a: Seq<u8>) -> int { if a.len() == 0 || a[0] == 0 { 1 } else { 8 - sp_ilog2(a[0]) as int } }
+/// C03 (mirror, header level): `id`, `size` and the header length `hl` are exactly what the bytes `a` at the cursor
+/// encode — the id is the big-endian value of its first sp_id_len(a) bytes, the size field follows immediately, has the
+/// length its first byte announces, and carries `size` (all-ones = Unknown)
+pub open spec fn sp_header(a: Seq<u8>, id: u64, size: EBMLSize, hl: int) -> bool {
+    let il = sp_id_len(a);
+    let l = hl - il;
+    &&& a.len() > 0 && il < hl <= a.len()
+    &&& id == (if a[0] == 0 { 0 } else { sp_be(a.subrange(0, il)) })
+    &&& a[il] != 0 && l == 8 - sp_ilog2(a[il])
+    &&& sp_be(a.subrange(il, hl)) >= pow128(l as nat)
+    &&& size == sp_size((sp_be(a.subrange(il, hl)) - pow128(l as nat)) as u64, l as usize)
+}
+/// the id the bytes at the cursor encode
+pub open spec fn sp_header_id(a: Seq<u8>) -> u64 { if a.len() == 0 || a[0] == 0 { 0 } else { sp_be(a.subrange(0, sp_id_len(a))) as u64 } }
+/// the header predicate only looks at the first `hl` bytes
+pub proof fn lemma_header_prefix(a: Seq<u8>, o: Seq<u8>, id: u64, size: EBMLSize, hl: int)
+    requires sp_header(a, id, size, hl), a.len() <= o.len(), o.subrange(0, a.len() as int) == a,
+    ensures sp_header(o, id, size, hl),
+{
+    let il = sp_id_len(a);
+    assert(o[0] == a[0]);
+    assert(o[il] == o.subrange(0, a.len() as int)[il]);
+    assert(o.subrange(0, il) =~= a.subrange(0, il));
+    assert(o.subrange(il, hl) =~= a.subrange(il, hl));
+}
 pub open spec fn sp_off(o: Option<usize>) -> int { match o { Some(v) => v as int, None => 0 } }
 
 /// Model of std::io::Read (ASSUMED, DESIGN.md §7): a finite, addressable stream of bytes.  `read` may return
@@ -81,12 +106,86 @@ fn r4_grow(buffer: &mut Box<[u8]>, required_capacity: usize)
 // ---------------------------------------------------------------------------------------------
 
 // R1: collapsed trait interface; results tied to uninterpreted spec functions (holds for every specification)
-pub trait EbmlSpecification: Sized {
+pub trait EbmlSpecification: Sized + Clone {
     spec fn sp_type(id: u64) -> Option<TagDataType>;
     spec fn sp_path(id: u64) -> Seq<PathPart>;
+    // what the specification's constructors return (deterministic functions of their arguments)
+    spec fn sp_mk_start(id: u64) -> Option<Self>;
+    spec fn sp_mk_uint(id: u64, v: u64) -> Option<Self>;
+    spec fn sp_mk_int(id: u64, v: i64) -> Option<Self>;
+    spec fn sp_mk_utf8(id: u64, v: Seq<char>) -> Option<Self>;
+    spec fn sp_mk_bin(id: u64, v: Seq<u8>) -> Option<Self>;
+    spec fn sp_mk_float(id: u64, v: f64) -> Option<Self>;
+    spec fn sp_mk_raw(id: u64, v: Seq<u8>) -> Self;
     fn get_tag_data_type(id: u64) -> (r: Option<TagDataType>) ensures r == Self::sp_type(id);
     fn get_path_by_id(id: u64) -> (r: &'static [PathPart]) ensures r@ == Self::sp_path(id);
+    fn get_master_tag(id: u64, data: Master<Self>) -> (r: Option<Self>) ensures data is Start ==> r == Self::sp_mk_start(id);
+    fn get_unsigned_int_tag(id: u64, data: u64) -> (r: Option<Self>) ensures r == Self::sp_mk_uint(id, data);
+    fn get_signed_int_tag(id: u64, data: i64) -> (r: Option<Self>) ensures r == Self::sp_mk_int(id, data);
+    fn get_utf8_tag(id: u64, data: String) -> (r: Option<Self>) ensures r == Self::sp_mk_utf8(id, data@);
+    fn get_binary_tag(id: u64, data: &[u8]) -> (r: Option<Self>) ensures r == Self::sp_mk_bin(id, data@);
+    fn get_float_tag(id: u64, data: f64) -> (r: Option<Self>) ensures r == Self::sp_mk_float(id, data);
+    fn get_raw_tag(id: u64, data: &[u8]) -> (r: Self) ensures r == Self::sp_mk_raw(id, data@);
 }
+/// "internally consistent specification" (documented precondition of the iterator; C18 establishes it for derived
+/// specifications): the constructor that matches the declared type of an id answers
+pub open spec fn sp_ctor_consistent<T: EbmlSpecification>() -> bool {
+    &&& forall|id: u64| T::sp_type(id) == Some(TagDataType::Master) ==> (#[trigger] T::sp_mk_start(id)) is Some
+    &&& forall|id: u64, v: u64| T::sp_type(id) == Some(TagDataType::UnsignedInt) ==> (#[trigger] T::sp_mk_uint(id, v)) is Some
+    &&& forall|id: u64, v: i64| T::sp_type(id) == Some(TagDataType::Integer) ==> (#[trigger] T::sp_mk_int(id, v)) is Some
+    &&& forall|id: u64, v: Seq<char>| T::sp_type(id) == Some(TagDataType::Utf8) ==> (#[trigger] T::sp_mk_utf8(id, v)) is Some
+    &&& forall|id: u64, v: Seq<u8>| T::sp_type(id) == Some(TagDataType::Binary) ==> (#[trigger] T::sp_mk_bin(id, v)) is Some
+    &&& forall|id: u64, v: f64| T::sp_type(id) == Some(TagDataType::Float) ==> (#[trigger] T::sp_mk_float(id, v)) is Some
+}
+/// payload decoders of tools.rs as functions of the payload bytes (what they compute is PROVED by engine K:
+/// k_arr_to_u64 / k_arr_to_i64 / k_arr_to_f64); None = the decoder rejects the length
+pub open spec fn sp_dec_uint(b: Seq<u8>) -> Option<u64> { if b.len() <= 8 { Some(sp_be(b) as u64) } else { None } }
+pub uninterp spec fn sp_dec_int(b: Seq<u8>) -> Option<i64>;
+pub uninterp spec fn sp_dec_float(b: Seq<u8>) -> Option<f64>;
+pub uninterp spec fn sp_dec_utf8(b: Seq<u8>) -> Option<Seq<char>>;
+/// C03 (mirror, element level): the tag an element (id, declared type, payload bytes) stands for; None = CorruptedTagData
+pub open spec fn sp_decode<T: EbmlSpecification>(ty: Option<TagDataType>, id: u64, b: Seq<u8>) -> Option<T> {
+    match ty {
+        Some(TagDataType::Master) => T::sp_mk_start(id),
+        Some(TagDataType::UnsignedInt) => match sp_dec_uint(b) { Some(v) => T::sp_mk_uint(id, v), None => None },
+        Some(TagDataType::Integer) => match sp_dec_int(b) { Some(v) => T::sp_mk_int(id, v), None => None },
+        Some(TagDataType::Utf8) => match sp_dec_utf8(b) { Some(v) => T::sp_mk_utf8(id, v), None => None },
+        Some(TagDataType::Binary) => T::sp_mk_bin(id, b),
+        Some(TagDataType::Float) => match sp_dec_float(b) { Some(v) => T::sp_mk_float(id, v), None => None },
+        None => Some(T::sp_mk_raw(id, b)),
+    }
+}
+/// R4 helpers for `tools::arr_to_X(raw_data).map_err(|e| TagIteratorError::CorruptedTagData{ tag_id, problem: e })` (closure) — contracts = K
+#[verifier::external_body]
+fn r4_arr_to_u64(raw: &[u8], tag_id: u64) -> (r: Result<u64, TagIteratorError>)
+    ensures (match r { Ok(v) => sp_dec_uint(raw@) == Some(v), Err(e) => sp_dec_uint(raw@) is None && e is CorruptedTagData }),
+{ unimplemented!() }
+#[verifier::external_body]
+fn r4_arr_to_i64(raw: &[u8], tag_id: u64) -> (r: Result<i64, TagIteratorError>)
+    ensures (match r { Ok(v) => sp_dec_int(raw@) == Some(v), Err(e) => sp_dec_int(raw@) is None && e is CorruptedTagData }),
+{ unimplemented!() }
+#[verifier::external_body]
+fn r4_arr_to_f64(raw: &[u8], tag_id: u64) -> (r: Result<f64, TagIteratorError>)
+    ensures (match r { Ok(v) => sp_dec_float(raw@) == Some(v), Err(e) => sp_dec_float(raw@) is None && e is CorruptedTagData }),
+{ unimplemented!() }
+/// `String::from_utf8(raw_data.to_vec()).map_err(|e| TagIteratorError::CorruptedTagData{ tag_id, problem: ToolError::FromUtf8Error(raw_data.to_vec(), e) })` (std)
+#[verifier::external_body]
+fn r4_from_utf8(raw: &[u8], tag_id: u64) -> (r: Result<String, TagIteratorError>)
+    ensures (match r { Ok(v) => sp_dec_utf8(raw@) == Some(v@), Err(e) => sp_dec_utf8(raw@) is None && e is CorruptedTagData }),
+{ unimplemented!() }
+/// `x.unwrap_or_else(|| panic!("Bad specification implementation: ..."))` — `requires x is Some`: the documented panic of an
+/// internally inconsistent specification must be excluded by sp_ctor_consistent
+#[verifier::external_body]
+fn r4_expect<T>(x: Option<T>, tag_id: u64) -> (r: T)
+    requires x is Some,
+    ensures Some(r) == x,
+{ unimplemented!() }
+/// `buffer[a..b].to_vec()` (the partial payload reported with an end-of-file error)
+#[verifier::external_body]
+fn r4_partial(buffer: &Box<[u8]>, a: usize, b: usize) -> (r: Vec<u8>)
+    requires a <= b <= buffer@.len(),
+    ensures r@ == buffer@.subrange(a as int, b as int),
+{ unimplemented!() }
 
 // ASSUMED specification of Result::or (std)
 pub assume_specification<T, E1, F> [Result::<T, E1>::or::<F>](r: Result<T, E1>, res: Result<T, F>) -> (o: Result<T, F>)
